@@ -54,6 +54,7 @@ func NewEmaWithPeriod[T helper.Number](period int) *Ema[T] {
 func (e *Ema[T]) Compute(c <-chan T) <-chan T {
 	result := make(chan T, cap(c))
 
+	helper.VerifStage("XmaCore", e.Period, []any{c}, []any{result})
 	go func() {
 		defer close(result)
 
